@@ -7,9 +7,11 @@ import (
 	"encoding/json"
 	"fmt"
 	"math"
+	"net"
 	"os"
 	"strings"
 	"sync"
+	"time"
 )
 
 // Model is one counterexample / path witness.
@@ -53,6 +55,11 @@ func Set(m Model) {
 	Failed = nil
 	Reached = nil
 	sharedLog = nil
+	for c, p := range udpPeers {
+		c.Close()
+		p.srv.Close()
+		delete(udpPeers, c)
+	}
 }
 
 // EmitLog returns the emit log of the current run.
@@ -110,8 +117,88 @@ func OpaqueString(name string, lo, hi int) string {
 	if n > hi {
 		n = hi
 	}
-	return strings.Repeat("x", n)
+	// every opaque chunk gets its own fill letter so that natively a stale or
+	// misplaced chunk is distinguishable from the expected one
+	mu.Lock()
+	k := counts["opaque-fill"]
+	counts["opaque-fill"] = k + 1
+	mu.Unlock()
+	return strings.Repeat(string(rune('a'+k%26)), n)
 }
+
+// OpaqueBytes is OpaqueString as a byte slice.
+func OpaqueBytes(name string, lo, hi int) []byte { return []byte(OpaqueString(name, lo, hi)) }
+
+// AbstractBuffers switches the engine to its abstract bytes.Buffer model (content
+// = sequence of byte terms and opaque chunks of symbolic length).  No-op natively.
+func AbstractBuffers() {}
+
+// ---- UDP connection: under the engine a model (datagram log, send faults at
+// the harness's request); natively a real loop-back socket pair.
+
+type udpPeer struct {
+	srv  *net.UDPConn
+	got  [][]byte
+	done bool
+}
+
+var udpPeers = map[*net.UDPConn]*udpPeer{}
+
+func NewUDPConn() *net.UDPConn {
+	srv, err := net.ListenUDP("udp", &net.UDPAddr{IP: net.IPv4(127, 0, 0, 1)})
+	if err != nil {
+		panic(err)
+	}
+	srv.SetReadBuffer(8 << 20)
+	c, err := net.DialUDP("udp", nil, srv.LocalAddr().(*net.UDPAddr))
+	if err != nil {
+		panic(err)
+	}
+	mu.Lock()
+	udpPeers[c] = &udpPeer{srv: srv}
+	mu.Unlock()
+	return c
+}
+
+// SetSendFault makes the following sends on c fail (true) or succeed (false).
+func SetSendFault(c *net.UDPConn, fail bool) {
+	if fail {
+		c.SetWriteDeadline(time.Unix(1, 0))
+	} else {
+		c.SetWriteDeadline(time.Time{})
+	}
+}
+
+func drain(c *net.UDPConn) *udpPeer {
+	mu.Lock()
+	p := udpPeers[c]
+	mu.Unlock()
+	if p == nil {
+		panic("verifrt: unknown connection")
+	}
+	buf := make([]byte, 70000)
+	for {
+		p.srv.SetReadDeadline(time.Now().Add(30 * time.Millisecond))
+		n, _, err := p.srv.ReadFromUDP(buf)
+		if err != nil {
+			break
+		}
+		p.got = append(p.got, append([]byte{}, buf[:n]...))
+	}
+	return p
+}
+
+// Datagrams returns the number of datagrams sent on c so far.
+func Datagrams(c *net.UDPConn) int { return len(drain(c).got) }
+
+// DatagramEq tells whether datagram i consists of exactly the bytes of s.
+func DatagramEq(c *net.UDPConn, i int, s string) bool { return string(drain(c).got[i]) == s }
+
+// DatagramLen returns the length of datagram i.
+func DatagramLen(c *net.UDPConn, i int) int { return len(drain(c).got[i]) }
+
+// Datagram returns the content of datagram i.
+func Datagram(c *net.UDPConn, i int) string { return string(drain(c).got[i]) }
 
 // Choose returns a value in [0,n); the engine explores every alternative.
 func Choose(name string, n int) int {
